@@ -218,6 +218,38 @@ def check(program: Program, run: Run) -> None:
                         run.finding(f"C11/source-identity-by-projection:{f.qualname}:{sub.attr}",
                                     f"{f.qualname} decides whether a referenced table is one of the statement's own sources by comparing `{ast.unparse(sub)}` (a projection of the table) instead of the table itself: "
                                     "a same-named source under another alias is taken for local, the foreign-table flag stays off and the reference is written unqualified", where=f.loc(n), rule="R5")
+        # which sources of the criterion are looked at: `.table` of every entry of <criterion>.fields_() reaches every kind of
+        # row source (table, subquery, set operation, CTE reference); a type-filtered search (tables_ = find_(Table)) does not
+        params = [a for a in f.params[1:]]
+        enum_ok = enum_partial = None
+        for n in ast.walk(f.node):
+            if isinstance(n, ast.Attribute) and isinstance(n.value, ast.Name) and n.value.id in params:
+                if n.attr in ("fields_", "nodes_"):
+                    enum_ok = n.attr
+                else:
+                    tgt = program.cls("Term").resolve(n.attr)
+                    filt = None
+                    if tgt is not None:
+                        for m in ast.walk(tgt.node):
+                            if isinstance(m, ast.Call) and isinstance(m.func, ast.Attribute) and m.func.attr == "find_" and m.args and isinstance(m.args[0], ast.Name):
+                                filt = m.args[0].id
+                    if n.attr == "find_":
+                        filt = "?"
+                    if filt is None:
+                        raise AnalysisError(f"unsupported construct: {f.qualname} enumerates the criterion through `.{n.attr}`, which is not understood")
+                    enum_partial = (n.attr, filt)
+        if enum_partial is not None:
+            run.ob("C11/R5 every source referenced by the criterion is examined", f.qualname, False, detail=f".{enum_partial[0]} -> find_({enum_partial[1]})", where=f.loc())
+            run.finding(f"C11/referenced-sources-partial:{f.qualname}:{enum_partial[0]}",
+                        f"{f.qualname} collects the criterion's sources with `.{enum_partial[0]}` (a search filtered to {enum_partial[1]} objects) instead of the `.table` of every field: a reference to an "
+                        "outer subquery, set operation or CTE is not seen, the foreign-table flag stays off and the statement's own columns are written bare", where=f.loc(), rule="R5")
+        elif enum_ok is not None:
+            run.ob("C11/R5 every source referenced by the criterion is examined", f.qualname, True, detail=f".{enum_ok}()", where=f.loc())
+        # the set form (referenced <= known, referenced - known) compares whole objects as well
+        for n in ast.walk(f.node):
+            if (isinstance(n, ast.Compare) and isinstance(n.ops[0], (ast.LtE, ast.GtE))) or (isinstance(n, ast.BinOp) and isinstance(n.op, ast.Sub)) or (
+                    isinstance(n, ast.Call) and isinstance(n.func, ast.Attribute) and n.func.attr in ("issubset", "issuperset", "difference")):
+                whole += 2
         nsites += whole
         reads = {n.attr for n in ast.walk(f.node) if isinstance(n, ast.Attribute) and isinstance(n.value, ast.Name) and n.value.id == selfn}
         for need in ("_from", "_update_table", "_joins"):
